@@ -63,6 +63,7 @@ type Frame struct {
 	discard    bool   // results discarded (deferred call)
 	afterDefers bool
 	pendingRecover bool
+	iter       *iterCheck // this frame is one invocation of a callback (see iterate.go)
 }
 
 type State struct {
